@@ -9,6 +9,10 @@ tree uses them: a `Subery` (LMDB) opened on a directory, a `Hold` holding it, `h
   * the durable copy twice: through hio (`subery.drqs|dsqs.get(key)`, deserialised) and through a
     plain LMDB cursor opened by the harness (independent of hio's scan code): same values, same order,
     nothing else in the sub-database.
+With two queues at sibling keys (K and K + '.' + text, K + '_' + text, ...) in the same sub-database EVERY queue is compared
+after EVERY operation on either of them (keys `sibling-memory-mismatch`, `sibling-durable-mismatch`): an operation on K
+must not touch what is stored for its sibling.  Sibling keys that sort inside K's hidden ordinal range (`K.<32 hex>...`,
+`K.b`) are C24's recorded key-encoding weakness and are kept out of this check (asserted on the PAIRS table).
 At a reopen point the Subery is closed, every in-memory object is dropped, the same directory is
 opened again (new Subery instance, or `.reopen()` of the same one), a new Hold and a new EMPTY
 Durq/Dusq are created at the same key; after the injection sync the content must equal the model.
@@ -38,8 +42,12 @@ RULE = ("operation histories over {push v, pull, extend/update [..], remove v (D
         "registered-dataclass domain {Bag(0), Bag(1), IceBag(0), IceBag(1)} (equal field values in two classes, duplicates "
         "inside extend/update lists). Every history of length <= 3 (quick) / <= 4 (thorough) over a 9-op (Durq) / 10-op (Dusq) "
         "alphabet is run once per reopen position (after op 1..len), so a close/reopen is tried between every two operations; "
-        "random histories of length 10..60 over a richer alphabet (push None, pull(emptive=False), a second queue at a "
-        "prefix-related key in the same sub-database) get 1..4 reopens at random positions; thorough also enumerates length-5 "
+        "a fixed schedule of two-queue scripts (class x 10 sibling key pairs K/S in ONE sub-database - plain prefixes, "
+        "S = K+'.'+text, nested dots, tuple forms - x injection order x 6 triggers that make hio delete all values at K: clear, "
+        "pin, forced sync, pull to empty, clear+inject a preloaded queue, clear+extend+clear) is run without a reopen and with a "
+        "reopen after every single position; after EVERY op the memory and durable copies of BOTH queues are compared; "
+        "random histories of length 10..60 over a richer alphabet (push None, pull(emptive=False), pin, forced sync; half of "
+        "them with a second queue at a sibling key) get 1..4 reopens at random positions; thorough also enumerates length-5 "
         "histories as far as a soft time limit goes and runs forked-child crash cases (SIGKILL at an acknowledged prefix or at the "
         "n-th durable write). Non-trivial = at least one reopen/crash happened while the model was non-empty and at least one "
         "operation changed the content; distinct = by (class, operation outcomes, reopen positions, content at each reopen).")
@@ -91,7 +99,7 @@ CLSNAME = {"durq": "Durq", "dusq": "Dusq"}
 # K's hidden ordinal range (that is C24's recorded encoding weakness, e.g. 'K.<32 hex>', 'K.b'): asserted below.
 PAIRS = [["q", "qq"], ["a", "a_b"], ["a", ["a", "b"]], ["x", "x1"],
          ["inbox", "inbox.retry"], ["q", "q.x.y"], ["a.b", "a.b.retry"], ["k", "k.z"],
-         [["my", "q"], "my_q.s1"], ["seen", ["seen.retry", "x"]]]
+         [["my", "q"], "my_q.s1"], [["in", "box"], "in_box.r.s"]]
 
 
 def kstr(key):
@@ -463,35 +471,85 @@ def reopen(ctx, sub, how):
 # --------------------------------------------------------------------------
 # run one history with reopens at the given positions (1-based: after that many ops)
 # --------------------------------------------------------------------------
+def _preloaded(qk, vals):
+    return Durq([mk(i) for i in vals]) if qk == "durq" else Dusq([mk(i) for i in vals])
+
+
 def run_history(ctx, qk, keys, ops, positions, how):
-    """ops: [which, name, arg?]; keys: [key0, key1?].  Returns (ok, outcomes, reopen snapshots, nonempty reopen seen)."""
+    """ops: [which, name, arg?]; keys: [key0, key1?] (str or list = tuple form).  After EVERY op the content of ALL queues
+    (memory, durable via raw cursor, durable via hio) is compared with their models, and again after every reopen.
+    Returns (ok, outcomes, reopen snapshots, nonempty reopen seen)."""
     sub = _fresh_store()
+    cls = CLSNAME[qk]
+    skeys = [kstr(k) for k in keys]
     qs, models = [], []
     hold = Hold(_hold_subery=sub)
     for k in keys:
         q = _new_q(qk)
-        hold[k] = q
+        hold[kreal(k)] = q
         qs.append(q)
         models.append(_model(qk))
     outcomes, snaps = [], []
     nonempty = False
+
+    def dotted_victims(w):
+        """siblings whose key is keys[w] + '.' + text and which hold values (what a prefix delete at keys[w] would wipe)"""
+        return [v for v in range(len(keys)) if v != w and skeys[v].startswith(skeys[w] + ".") and models[v].items()]
+
     for i, wop in enumerate(ops):
         w, op = wop[0], wop[1:]
-        tag = step(ctx, sub, qk, keys[w], qs[w], models[w], op, others=keys)
-        if tag is None:
-            return False, outcomes, snaps, nonempty
+        before = models[w].items()
+        victims = dotted_victims(w)
+        if op[0] == "inject":
+            # a NEW preloaded queue object replaces the (empty) one at this key: Hold injects it, sync finds no durable copy
+            # and pins the preloaded content.  Only generated where the model is empty.
+            if before:
+                ctx.count("inject_skipped_nonempty")
+                continue
+            q = _preloaded(qk, op[1])
+            try:
+                hold[kreal(keys[w])] = q
+            except Exception as ex:
+                ctx.violation(f"escape:{type(ex).__name__}:{cls}.inject", f"injecting a preloaded {cls} at {skeys[w]!r} raised {ex!r}")
+                return False, outcomes, snaps, nonempty
+            qs[w] = q
+            model_op(models[w], ["extend" if qk == "durq" else "update", op[1]])
+            ctx.count("ops_checked")
+            ctx.count("op:inject")
+            if not check_content(ctx, sub, qk, skeys[w], q, models[w], "after", "inject", others=keys):
+                return False, outcomes, snaps, nonempty
+            tag = "chg"
+        else:
+            tag = step(ctx, sub, qk, skeys[w], qs[w], models[w], op, others=keys)
+            if tag is None:
+                return False, outcomes, snaps, nonempty
+        if victims and (op[0] in ("pin", "inject") or (op[0] == "clear" and before)):
+            ctx.count("delete_all_at_K_with_dotted_sibling_nonempty")
+        # every OTHER queue must be exactly what it was: in memory and on disk
+        for v in range(len(keys)):
+            if v == w:
+                continue
+            ctx.count("sibling_checks")
+            if models[v].items():
+                ctx.count("sibling_nonempty_checks")
+                if skeys[v].startswith(skeys[w] + ".") or skeys[w].startswith(skeys[v] + "."):
+                    ctx.count("dotted_sibling_nonempty_checks")
+            if not check_content(ctx, sub, qk, skeys[v], qs[v], models[v], "sibling", op[0], others=keys):
+                return False, outcomes, snaps, nonempty
         outcomes.append([w, op[0], tag])
         if (i + 1) in positions:
             del hold, qs, q
             sub = reopen(ctx, sub, how)
             hold = Hold(_hold_subery=sub)
             qs = []
-            for k in keys:
+            for v, k in enumerate(keys):
+                if not models[v].items() and dotted_victims(v):
+                    ctx.count("delete_all_at_K_with_dotted_sibling_nonempty")   # empty K: sync -> pin -> delete all at K
                 q = _new_q(qk)
-                hold[k] = q
+                hold[kreal(k)] = q
                 qs.append(q)
             snap = []
-            for k, q, m in zip(keys, qs, models):
+            for k, q, m in zip(skeys, qs, models):
                 if not check_content(ctx, sub, qk, k, q, m, "reopen", op[0], others=keys):
                     return False, outcomes, snaps, nonempty
                 snap.append(m.items())
@@ -523,6 +581,19 @@ def run_case(case, ctx):
             ctx.seen("reopen_contents", [qk, snaps[-1][1] if snaps else None])
         if len(ops) == 3:
             ctx.sample({"case": case, "outcomes": outcomes, "content_at_last_reopen": snaps})
+        return
+    if kind == "two":
+        n = len(case["ops"])
+        for pos in [set()] + [{p} for p in range(1, n + 1)]:
+            ctx.evaluations += 1 if pos else 0
+            ok, outcomes, snaps, nonempty = run_history(ctx, qk, case["keys"], case["ops"], pos, case["how"])
+            ctx.count("two_queue_scripted_runs")
+            if not ok:
+                return
+            if nonempty and any(t[2] == "chg" for t in outcomes):
+                ctx.nontrivial([qk, "two", [kstr(k) for k in case["keys"]], outcomes, snaps])
+        ctx.seen("two_queue_configurations", [qk, [kstr(k) for k in case["keys"]], case["trigger"]])
+        ctx.sample({"case": case, "outcomes": outcomes, "content_at_last_reopen": snaps})
         return
     if kind == "rand":
         keys = [case["key"]] + ([case["other"]] if case.get("other") else [])
